@@ -59,10 +59,19 @@ def canon (l : List Step) : List Step :=
       sortBy (fun b => (group b).2) run ++ go fuel tl
   go l.length l
 
+/-- the counter write that precedes each CRL of a phase depends on the order in which the runtime walks the
+    issuers; in canonical (order-free) traces it is left out — interrupted and concurrent executions, whose observed
+    order is an input, are compared with it -/
+def dropAdvance : List Step → List Step
+  | .putCounters cs :: .putCRL i n ser d :: r => .putCRL i n ser d :: dropAdvance r
+  | .putCounters cs :: .putDelta i n :: r => .putDelta i n :: dropAdvance r
+  | a :: r => a :: dropAdvance r
+  | [] => []
+
 def visible (l : List Step) : List Step := l.filter (fun st => (token st).isSome)
 def tokens (l : List Step) : List String := l.filterMap token
 def showTrace (l : List Step) : String :=
-  let t := tokens (canon (visible l))
+  let t := tokens (canon (dropAdvance (visible l)))
   if t.isEmpty then "-" else " ".intercalate t
 
 def showRes : Res → String
@@ -105,6 +114,22 @@ def parseCut? : List String → Option Cut
     fault position lay beyond the last storage operation of this execution, so nothing failed -/
 def swallowed (cls : String) : Bool := cls == "get:certs-legacy" || cls == "get:revoked-legacy" || cls == "none"
 
+/-- candidate orders for a phase of an interrupted request: the order of the CRLs seen so far, continued by every
+    possible next issuer (the request may have been cut between an issuer's counter write and its CRL) -/
+def orderCands (letter : Char) (obs : List String) (live : List Nat) : List (List Nat) :=
+  let base := orderFrom letter obs live
+  let seen := obs.filterMap fun t =>
+    if t.front == letter then ((t.drop 1).toString.splitOn ":").head?.bind String.toNat? else none
+  let rest := live.filter (fun i => !(i ∈ seen))
+  base :: rest.map fun cand => seen ++ cand :: rest.filter (· != cand)
+
+/-- the program of an interrupted request under an order that explains the observed writes (else the default order) -/
+def fitProg (prog : List Nat → List Nat → List Step × Res) (obs : List String) (live : List Nat) : List Step × Res :=
+  let cands := (orderCands 'C' obs live).flatMap fun o1 => (orderCands 'D' obs live).map fun o2 => (o1, o2)
+  match cands.find? (fun o => obs == (tokens (visible (prog o.1 o.2).1)).take obs.length) with
+  | some o => prog o.1 o.2
+  | none => prog (orderFrom 'C' obs live) (orderFrom 'D' obs live)
+
 /-- run a request program under a cut; `prog o1 o2` is the request's program for the given issuer orders -/
 def runCut (s : St) (prog : List Nat → List Nat → List Step × Res) (cut : Cut) : St × String :=
   match cut with
@@ -115,7 +140,7 @@ def runCut (s : St) (prog : List Nat → List Nat → List Step × Res) (cut : C
     (applySteps s p, s!"{showRes r} w={showTrace p}")
   | .fault cls obs =>
     let live := sortNat s.issuers
-    let (p, r) := prog (orderFrom 'C' obs live) (orderFrom 'D' obs live)
+    let (p, r) := fitProg prog obs live
     if r = .badOp then (s, "bad-op") else
     let toks := tokens (visible p)
     if obs != toks.take obs.length then (s, "illegal-trace:" ++ " ".intercalate toks) else
@@ -127,7 +152,7 @@ def runCut (s : St) (prog : List Nat → List Nat → List Step × Res) (cut : C
       (applySteps s done, "err:internal")
   | .crash obs =>
     let live := sortNat s.issuers
-    let (p, r) := prog (orderFrom 'C' obs live) (orderFrom 'D' obs live)
+    let (p, r) := fitProg prog obs live
     if r = .badOp then (s, "bad-op") else
     let toks := tokens (visible p)
     if obs != toks.take obs.length then (s, "illegal-trace:" ++ " ".intercalate toks) else
